@@ -859,7 +859,10 @@ def c_alpha_normalise(f):
     if not rec:
         return 0
     from .alpha import pairing
-    c_inline_new_scalars(f, set(rec))
+    if len(c_locals(f)) > len(rec):
+        # more locals than the confirmed form: the new scalars are written out first (with as many locals as recorded there are no
+        # new ones, whatever they are called - renamed locals are paired position by position)
+        c_inline_new_scalars(f, set(rec))
     cur = c_locals(f)
     used = set(f.param_names())
     for st in f.walk():
